@@ -52,10 +52,10 @@ Section Match.
   Variable sigs : list fsig.
 
   (* ---- a typed pattern on a typed value: the test is defined ---- *)
-  Lemma mtest_typed : forall len m t G G' SC v, len = false ->
-    tc_mpat len m t G = Some G' -> vtyp SC t v -> exists b, mtest m v = Ok b.
+  Lemma mtest_typed : forall m t G G' SC v,
+    tc_mpat m t G = Some G' -> vtyp SC t v -> exists b, mtest m v = Ok b.
   Proof.
-    intros len m. induction m as [z| |tag p|ms IH] using mpat_ind'; intros t G G' SC v Hlen Htc Hv; subst len; cbn [tc_mpat] in Htc; cbn [mtest].
+    intros m. induction m as [z| |tag p|ms IH] using mpat_ind'; intros t G G' SC v Htc Hv; cbn [tc_mpat] in Htc; cbn [mtest].
     - destruct t; try discriminate. apply vtyp_num_inv in Hv. destruct Hv as (z' & ->). eauto.
     - eauto.
     - destruct t as [| | | | |nm cs]; try discriminate. apply vtyp_sum_inv in Hv. destruct Hv as (tag' & pv & o & -> & _ & _). eauto.
@@ -63,15 +63,15 @@ Section Match.
       revert ts vs G Htc Hvs. induction IH as [|m ms Hm _ IHms]; intros ts vs G Htc Hvs.
       + destruct ts; try discriminate. inversion Hvs; subst. eauto.
       + destruct ts as [|t ts]; try discriminate. inversion Hvs as [|? v ? vs' Hv1 Hv2]; subst.
-        destruct (tc_mpat false m t G) as [G1|] eqn:E1; try discriminate.
-        destruct (Hm _ _ _ _ _ eq_refl E1 Hv1) as ([|] & ->).
+        destruct (tc_mpat m t G) as [G1|] eqn:E1; try discriminate.
+        destruct (Hm _ _ _ _ _ E1 Hv1) as ([|] & ->).
         * apply (IHms ts vs' G1 Htc Hv2).
         * eauto.
   Qed.
 
   (* an irrefutable typed pattern matches *)
   Lemma irrefutable_matches : forall m t G G' SC v,
-    irrefutable m = true -> tc_mpat false m t G = Some G' -> vtyp SC t v -> mtest m v = Ok true.
+    irrefutable m = true -> tc_mpat m t G = Some G' -> vtyp SC t v -> mtest m v = Ok true.
   Proof.
     induction m as [z| |tag p|ms IH] using mpat_ind'; intros t G G' SC v Hi Htc Hv; cbn [irrefutable] in Hi; try discriminate.
     - reflexivity.
@@ -79,13 +79,13 @@ Section Match.
       cbn [mtest]. revert ts vs G Htc Hvs Hi. induction IH as [|m ms Hm _ IHms]; intros ts vs G Htc Hvs Hi.
       + destruct ts; try discriminate. inversion Hvs; subst. reflexivity.
       + destruct ts as [|t ts]; try discriminate. inversion Hvs as [|? v ? vs' Hv1 Hv2]; subst.
-        destruct (tc_mpat false m t G) as [G1|] eqn:E1; try discriminate.
+        destruct (tc_mpat m t G) as [G1|] eqn:E1; try discriminate.
         cbn [forallb] in Hi. apply andb_true_iff in Hi. destruct Hi as [Hi1 Hi2].
         rewrite (Hm _ _ _ _ _ Hi1 E1 Hv1). apply (IHms ts vs' G1 Htc Hv2 Hi2).
   Qed.
 
   (* the binders of a typed pattern that matched are bound to typed cells *)
-  Lemma mbind_sound : forall m t G G', tc_mpat false m t G = Some G' ->
+  Lemma mbind_sound : forall m t G G', tc_mpat m t G = Some G' ->
     forall v r w SV SC, vtyp SC t v -> mtest m v = Ok true -> env_ok SV sigs G r -> wok an ft sigs SV SC w ->
     exists r' w' SV', mbind m v r w = Ok (r', w') /\ ext SV SV' /\ wok an ft sigs SV' SC w' /\ env_ok SV' sigs G' r'.
   Proof.
@@ -104,7 +104,7 @@ Section Match.
       revert ts vs G r w SV Htc Hvs Ht He Hw. induction IH as [|m ms Hm _ IHms]; intros ts vs G r w SV Htc Hvs Ht He Hw.
       + destruct ts; try discriminate. inversion Hvs; subst. inversion Htc; subst. exists r, w, SV. split4; auto with lmmt.
       + destruct ts as [|t ts]; try discriminate. inversion Hvs as [|? v ? vs' Hv1 Hv2]; subst.
-        destruct (tc_mpat false m t G) as [G1|] eqn:E1; try discriminate.
+        destruct (tc_mpat m t G) as [G1|] eqn:E1; try discriminate.
         destruct (mtest m v) as [[|]| |c] eqn:Em; try discriminate.
         destruct (Hm _ _ _ E1 v r w SV SC Hv1 Em He Hw) as (r1 & w1 & SV1 & Eb & Hx & Hw1 & He1). rewrite Eb.
         destruct (IHms ts vs' G1 r1 w1 SV1 Htc Hv2 Ht He1 Hw1) as (r2 & w2 & SV2 & Eb2 & Hx2 & Hw2 & He2).
@@ -112,25 +112,25 @@ Section Match.
   Qed.
 
   (* the types of the arms, and that every pattern is typed against the scrutinee type *)
-  Lemma tc_arms_inv : forall len G ts arms tys, tc_arms an len G ts arms = Some tys ->
-    Forall2 (fun a t => exists G', tc_mpat len (fst a) ts G = Some G' /\ tc an G' (snd a) = Some t) arms tys.
+  Lemma tc_arms_inv : forall G ts arms tys, tc_arms an G ts arms = Some tys ->
+    Forall2 (fun a t => exists G', tc_mpat (fst a) ts G = Some G' /\ tc an G' (snd a) = Some t) arms tys.
   Proof.
-    intros len G ts. induction arms as [|a arms IH]; intros tys H; cbn [tc_arms] in H.
+    intros G ts. induction arms as [|a arms IH]; intros tys H; cbn [tc_arms] in H.
     - inversion H; subst. constructor.
-    - destruct (tc_mpat len (fst a) ts G) as [G'|] eqn:E1; try discriminate.
+    - destruct (tc_mpat (fst a) ts G) as [G'|] eqn:E1; try discriminate.
       destruct (tc an G' (snd a)) as [t|] eqn:E2; try discriminate.
-      change (match tc_arms an len G ts arms with Some tl => Some (t :: tl) | None => None end = Some tys) in H.
-      destruct (tc_arms an len G ts arms) as [tl|] eqn:E3; try discriminate. inversion H; subst.
+      change (match tc_arms an G ts arms with Some tl => Some (t :: tl) | None => None end = Some tys) in H.
+      destruct (tc_arms an G ts arms) as [tl|] eqn:E3; try discriminate. inversion H; subst.
       constructor; eauto.
   Qed.
 
   (* exhaustive typed patterns: the first-match search finds an arm, and the arm it finds matched *)
   Lemma find_arm_typed : forall G ts arms tys SC v,
-    tc_arms an false G ts arms = Some tys -> exhaustive ts (map fst arms) = true -> vtyp SC ts v ->
+    tc_arms an G ts arms = Some tys -> exhaustive ts (map fst arms) = true -> vtyp SC ts v ->
     exists i m body, find_arm arms v 0 = Ok (i, m, body) /\ nth_error arms i = Some (m, body) /\ mtest m v = Ok true.
   Proof.
     intros G ts arms tys SC v Htc Hex Hv.
-    pose proof (tc_arms_inv _ _ _ _ _ Htc) as Harms.
+    pose proof (tc_arms_inv _ _ _ _ Htc) as Harms.
     (* some arm matches *)
     assert (Hsome : exists m, In m (map fst arms) /\ mtest m v = Ok true).
     { unfold exhaustive in Hex. apply orb_true_iff in Hex. destruct Hex as [Hex|Hex].
@@ -150,7 +150,7 @@ Section Match.
                                               mtest m v = Ok true /\ i0 <= i).
     { clear Htc Hex. revert tys Harms Hin0. induction arms as [|[m b] arms IH]; intros tys Harms Hin0 i0; [contradiction|].
       inversion Harms as [|? t ? tl (G' & E1 & E2) Hrest]; subst. cbn [fst snd] in *. cbn [find_arm].
-      destruct (mtest_typed false m ts G G' SC v eq_refl E1 Hv) as ([|] & Eb); rewrite Eb.
+      destruct (mtest_typed m ts G G' SC v E1 Hv) as ([|] & Eb); rewrite Eb.
       - exists i0, m, b. rewrite Nat.sub_diag. repeat split; auto.
       - destruct Hin0 as [Heq|Hin0]; [cbn in Heq; subst m0; congruence|].
         destruct (IH tl Hrest Hin0 (S i0)) as (i & m' & b' & E & En & Et & Hle).
